@@ -509,7 +509,7 @@ func init() {
 			if s != nil {
 				for _, m := range s.GetAll() {
 					members = append(members, persistedMember{
-						Value: string(m.Value),
+						Value: internal.EncodePersistedString(string(m.Value)),
 						Score: strconv.FormatFloat(float64(m.Score), 'g', -1, 64),
 					})
 				}
@@ -532,7 +532,11 @@ func init() {
 				if err != nil {
 					return nil, err
 				}
-				params = append(params, MemberParam{Value: Value(m.Value), Score: Score(score)})
+				value, err := internal.DecodePersistedString(m.Value)
+				if err != nil {
+					return nil, err
+				}
+				params = append(params, MemberParam{Value: Value(value), Score: Score(score)})
 			}
 			return NewSortedSet(params), nil
 		},
